@@ -311,7 +311,9 @@ type c20ReadCloser struct {
 func (r c20ReadCloser) Close() error { atomic.AddInt32(r.closed, 1); return nil }
 
 func c20Source(kind int, data []byte, srcClosed *int32) io.Reader {
-	switch kind % 4 {
+	switch kind % 5 {
+	case 4:
+		return iotest.DataErrReader(bytes.NewReader(data)) // the last bytes arrive together with io.EOF
 	case 0:
 		return bytes.NewBuffer(append([]byte(nil), data...)) // what connect's pool and the tracer pass
 	case 1:
